@@ -8,7 +8,7 @@
 (***************************************************************************)
 EXTENDS InfOCFAlgo, Universe, Json, IOUtils
 
-CONSTANTS MaxB, FromFile, MaxReport
+CONSTANTS MaxB, FromFile, MaxReport, CU     \* CU: impact bound for the c-inference refinement (0 = skip)
 
 VARIABLES stage, case, bad
 vars == <<stage, case, bad>>
@@ -23,13 +23,14 @@ Mismatch(c) ==
     LET B == BaseOf(c.b)
         P == Part(B, WS)
         ok(m) == IF m THEN NoFal(B, P.inf, WS) # {} ELSE P.inf = {}
-    IN  {<<name, qi, m>> \in {"z", "w", "l", "p"} \X QsOf(c) \X BOOLEAN :
+    IN  {<<name, qi, m>> \in (IF CU > 0 THEN {"z", "w", "l", "p", "c"} ELSE {"z", "w", "l", "p"}) \X QsOf(c) \X BOOLEAN :
             /\ ok(m)
             /\ LET q == CondOf(qi)
                IN  CASE name = "z" -> AlgoZ(B, q, WS, m) # SysZP(B, P, q, WS, m)
                      [] name = "w" -> AlgoW(B, q, WS, m) # SysWP(B, P, q, WS, m)
                      [] name = "l" -> AlgoLex(B, q, WS, m) # SysLexP(B, P, q, WS, m)
-                     [] name = "p" -> m /\ AlgoPInf(B, q, WS) # PEntP(B, P, q, WS, TRUE)}
+                     [] name = "p" -> m /\ AlgoPInf(B, q, WS) # PEntP(B, P, q, WS, TRUE)
+                     [] name = "c" -> ~m /\ AlgoC(B, q, WS, CU) # CInf(B, q, WS, CU)}
 
 Distinguishing(c) ==
     LET B == BaseOf(c.b)
